@@ -252,6 +252,8 @@ def token_mechanism(tok: str):
     return 'unquoted_other', {}
 
 
+EV_NAMES = {'str': 'string', 'int': 'integer', 'f64': 'double', 'f32': 'single', 'fvar': 'value_su',
+            'su': 'su_column'}
 QUOTING_MECHS = {'unquoted_leading_reserved_char', 'unquoted_reserved_word',
                  'unquoted_embedded_whitespace'}
 TEXTFIELD_MECH = 'text_field_line_starts_with_semicolon'
@@ -264,7 +266,7 @@ def _mech(v):
 
 
 def _is_c14(v):
-    return v.get('kind', '').split(':')[0] in ('token', 'doc', 'comment')
+    return v.get('kind', '').startswith(('token_', 'doc_', 'comment_'))
 
 
 FINDING_PREDICATES = {
@@ -679,13 +681,13 @@ class Monitors:
                 self.refusal = ev.exc
                 self._hit(value)
                 return
-            ctx.violation('token:raised', f'_format_value raised {type(ev.exc).__name__}: {ev.exc}',
+            ctx.violation('token_raised', f'_format_value raised {type(ev.exc).__name__}: {ev.exc}',
                           case, mechanism='raised', exception=type(ev.exc).__name__)
             self.culprits.append(('raised', {}))
             return
         tok = ev.result
         if not isinstance(tok, str):
-            ctx.violation('token:not_a_string', f'_format_value returned {type(tok).__name__}', case,
+            ctx.violation('token_not_a_string', f'_format_value returned {type(tok).__name__}', case,
                           mechanism='not_a_string')
             return
         case['token'] = tok
@@ -709,7 +711,7 @@ class Monitors:
         self._hit(value)
         if problem is not None:
             mech, keys = token_mechanism(tok)
-            ctx.violation('token:' + mech, f'token {_short(tok)} for {_short(case["supplied"])} {problem}',
+            ctx.violation('token_' + mech, f'token {_short(tok)} for {_short(case["supplied"])} {problem}',
                           case, mechanism=mech, **keys)
             self.culprits.append((mech, keys))
             return
@@ -724,8 +726,8 @@ class Monitors:
         if expected[0] == 'fvar':
             ctx.event('value_su')
         if why:
-            mech = 'value_changed:' + expected[0]
-            ctx.violation('token:' + mech, f'token {_short(tok)}: {why}', case, mechanism=mech,
+            mech = 'value_changed_' + EV_NAMES.get(expected[0], 'other')
+            ctx.violation('token_' + mech, f'token {_short(tok)}: {why}', case, mechanism=mech,
                           form=val.form)
             self.culprits.append((mech, {}))
 
@@ -751,7 +753,7 @@ class Monitors:
             ctx.count('comment.not_a_buffer')
             return
         if ev.exc is not None:
-            ctx.violation('comment:raised', f'_write_comment raised {type(ev.exc).__name__}: {ev.exc}',
+            ctx.violation('comment_raised', f'_write_comment raised {type(ev.exc).__name__}: {ev.exc}',
                           {'comment': comment}, mechanism='raised')
             return
         frag = f.getvalue()[ev.pre:]
@@ -762,7 +764,7 @@ class Monitors:
             file_comment = (x is not None and x.kind != 'builder' and self.save_depth > 0
                             and comment == x.top_comment and ev.pre == len(MAGIC))
             mech = COMMENT_MECH if file_comment else 'non_ascii_comment'
-            ctx.violation('comment:' + mech, f'comment written with non-ASCII text: {_short(frag)}', case,
+            ctx.violation('comment_' + mech, f'comment written with non-ASCII text: {_short(frag)}', case,
                           mechanism=mech)
             self.culprits.append((mech, {}))
             return
@@ -771,7 +773,7 @@ class Monitors:
         except cif11.CifSyntaxError as e:
             toks = [e.code]
         if toks or (frag and not frag.endswith('\n')):
-            ctx.violation('comment:leaks_tokens', f'comment text {_short(frag)} is not only comments', case,
+            ctx.violation('comment_leaks_tokens', f'comment text {_short(frag)} is not only comments', case,
                           mechanism='comment_leaks_tokens')
             self.culprits.append(('comment_leaks_tokens', {}))
 
@@ -813,11 +815,11 @@ class Monitors:
                 # the narrow monitors flagged tokens / comments of this document: one report per
                 # mechanism, so that each is classified on its own
                 for m in culprit_mechs:
-                    ctx.violation('doc:caused_by:' + m, f'{where}: {what}', case, mechanism=m,
+                    ctx.violation('doc_from_' + m, f'{where}: {what}', case, mechanism=m,
                                   together_with=[o for o in culprit_mechs if o != m], category=category,
                                   **keys)
             else:
-                ctx.violation('doc:' + category, f'{where}: {what}', case, mechanism=category, **keys)
+                ctx.violation('doc_' + category, f'{where}: {what}', case, mechanism=category, **keys)
 
         if exc is not None:
             if exc is self.refusal:
@@ -867,12 +869,12 @@ class Monitors:
                     raise
                 if culprit_mechs or any(b.name != '' for b in x.blocks):
                     raise
-                ctx.violation('doc:' + EMPTY_CODE_MECH,
+                ctx.violation('doc_' + EMPTY_CODE_MECH,
                               f'{where}: block with the (default) empty name is written as "data_" '
                               'without a block code', case, mechanism=EMPTY_CODE_MECH)
                 doc = cif11.parse(text, strict_block_code=False)
         except cif11.CifSyntaxError as e:
-            report('parse:' + e.code, f'output is not CIF 1.1: {e}', code=e.code)
+            report('parse_' + e.code, f'output is not CIF 1.1: {e}', code=e.code)
             return
         except Exception:  # noqa: BLE001
             ctx.oracle_error('C14 parse document')
@@ -1353,7 +1355,7 @@ def run(shard, ctx):
             act()
         except Exception as e:  # noqa: BLE001  judged by the document monitor through PY_UNWIND
             if mon.judged_docs == 0:
-                ctx.violation('doc:raised_outside_monitors',
+                ctx.violation('doc_raised_outside_monitors',
                               f'{x.via}: raised {type(e).__name__}: {e}', x.describe(),
                               mechanism='raised')
         finally:
